@@ -25,6 +25,9 @@ MUTANTS = [
     ("C03", "detect", COV, "        if larger not in seen and (maximum is None or larger <= maximum):", "        if larger not in seen:", "near-boundary number above maximum is labelled positive"),
     ("C03", "detect", COV, "        if larger not in seen and (max_items is None or larger <= max_items):", "        if larger not in seen and (max_items is None or larger <= max_items + 1):", "array one item over maxItems labelled positive"),
     ("C03", "quiet", COV, "        if larger not in seen and (maximum is None or larger <= maximum):", "        if (maximum is None or larger <= maximum) and larger not in seen:", "commuted conjunction"),
+    ("C03", "detect", COV, "                    next = value + 1\n", "                    next = value\n", "the 'greater than maximum' negative equals the maximum"),
+    ("C03", "detect", COV, "                    next = value - 1\n", "                    next = value + 1\n", "the 'smaller than minimum' negative is above the minimum"),
+    ("C03", "detect", COV, "                        min_length = max_length = value - 1\n", "                        min_length = max_length = value\n", "the 'smaller than minLength' string has exactly minLength characters"),
     # ---- C04
     ("C04", "detect", CHK, "    if response.status_code not in allowed_status_codes:", "    if response.status_code not in allowed_status_codes and response.status_code >= 500:", "undocumented 4xx accepted"),
     ("C04", "detect", CHK, "    if \"default\" in responses:\n        return None\n    allowed_status_codes", "    if \"default\" not in responses:\n        return None\n    allowed_status_codes", "default rule inverted"),
